@@ -26,7 +26,7 @@ CLAIMED = {
              "when it sorts — with a counterexample when it does not (fix: d7fa6c9). T1 (typed go/packages census, regenerated on every "
              "run): the list of map-range sites, go statements, select statements, time.Now calls and consumers of set.Set.ToSlice in "
              "the consensus packages equals the classified expectation (a new site, or a consumer that stops sorting, breaks the "
-             "obligation). T2: three real app replicas from one genesis executing identical blocks over all custom modules, compared "
+             "obligation); for every map-range site also the writes to variables that outlive an iteration and the early exits. T2: three real app replicas from one genesis executing identical blocks over all custom modules, compared "
              "on app hash, DeliverTx results and validator updates at every height.",
         note="NOT proved: that each site's loop body has the shape of its class (validated by the replica run), and the determinism of "
              "the SDK, IAVL, wasmvm, the go-ethereum interpreter, goroutine scheduling and the Go runtime. Trusted: Lean kernel; "
@@ -212,7 +212,10 @@ CLAIMED = {
              "times outside the EVM ante pipeline, at any nesting depth and under any grant configuration (mutual induction over the "
              "tree); the invariant is preserved. T1 facts regenerated each run: both ante chains and the extension-option routing. "
              "Correspondence through full DeliverTx on the real app with generated message trees; the harness also classifies WHERE a tx "
-             "failed (Ethereum guard / message execution / elsewhere) and the model must agree on the guards' verdict.",
+             "failed (Ethereum guard / message execution / elsewhere) and the model must agree on the guards' verdict. The EVM admission "
+             "pipeline itself (signature, nonce matched and consumed once, gasLimit x price from that message's signer up front, refund) is "
+             "tied by the evmtx correspondence (model EvmTx, theorems under C05/C07) incl. txs carrying messages of several signers; a "
+             "cross oracle names a signer that ends up richer than the pipeline allows.",
         note="Trusted: Lean kernel; harness; extractor. Hypotheses: an address recovered from an Ethereum signature cannot sign a Cosmos "
              "tx (exercised: eth_secp256k1-signed Cosmos txs are refused), is not a contract nor the gov account.",
         technique="Lean 4 proof (mutual structural induction over message trees, grant invariant over histories) + regenerated ante-chain "
